@@ -169,8 +169,9 @@ def build_jobs(tier: str) -> list:
         if rng.random() < 0.3:
             # high injection temperature: power plants may replace it by their own reinjection temperature
             q['Injection Temperature'] = gen.fmt(rng.uniform(70, 120))
-        if tier == 'thorough' and rng.random() < 0.15:
-            q['Time steps per year'] = rng.choice([1, 2, 5, 7, 12])
+        if rng.random() < 0.3 and int(q.get('Reservoir Model', 4)) != 5:
+            # step counts that divide neither the hours, the days nor the months of a year (the generator's own are 1, 2, 3, 4, 6, 12)
+            q['Time steps per year'] = rng.choice([5, 7, 9, 11, 13, 16, 17, 52])
         jobs.append((tag, gen.to_text(q)))
     for name, text in sim.example_inputs().items():
         if name.startswith(('Beckers', 'example6', 'example7', 'MC_', 'SUTRA')):
